@@ -32,8 +32,9 @@ type Extractor struct {
 	funcOf          map[AtomID]*ssa.Function // function values (func: atoms)
 	BenignWriteTags map[string]bool
 	caseBudget      int
-	caseAssume      []Assumption // standing assumptions of EquivByCasesUnder
-	caseDeadline    time.Time    // wall-clock bound of one EquivByCases call
+	caseAssume      []Assumption   // standing assumptions of EquivByCasesUnder
+	caseDeadline    time.Time      // wall-clock bound of one EquivByCases call
+	caseNotNaN      map[AtomID]int // quantities that are not NaN in the case being analysed
 	inSign          bool
 	inUnit          bool
 	ctxDepth        int
@@ -400,30 +401,35 @@ func (x *Extractor) evalByRegions(name string, d *RF, assume []Assumption, sub m
 			return False
 		}
 	}
-	// integers: an assumed comparison of the same two sides shifted by a whole constant
-	// (n <= m-1 when asked about n < m) bounds the difference all the same
-	if x.S.Integral(d) {
-		if t := x.evalByInterval(name, d, assume, sub); t != Unknown {
-			return t
-		}
+	// an assumed comparison of the same two sides shifted by a constant (n <= m-1 when asked about
+	// n < m; y < 0 when asked about 1 < y) bounds the difference all the same
+	if t := x.evalByInterval(name, d, assume, sub); t != Unknown {
+		return t
 	}
 	return Unknown
 }
 
-// evalByInterval: d is integer-valued; every assumed comparison whose
-// difference is ±d + c for a whole constant c narrows the interval of d; the
-// comparison `name` of d with 0 is decided when the interval settles it.
+// evalByInterval: every assumed comparison whose difference is ±d + c for a
+// constant c narrows the interval of d; the comparison `name` of d with 0 is
+// decided when the interval settles it. For integer-valued d strict bounds are
+// tightened by one and negated comparisons count as well; for real-valued d
+// only comparisons assumed TRUE are used (they also tell that d is ordered, i.e.
+// not NaN, which the conclusion needs).
 func (x *Extractor) evalByInterval(name string, d *RF, assume []Assumption, sub map[AtomID]*RF) Tri {
-	var lo, hi *big.Rat // nil: unbounded
-	tighten := func(l, h *big.Rat) {
-		if l != nil && (lo == nil || l.Cmp(lo) > 0) {
+	integral := x.S.Integral(d)
+	type bound struct {
+		v      *big.Rat
+		strict bool
+	}
+	var lo, hi *bound // nil: unbounded
+	tighten := func(l, h *bound) {
+		if l != nil && (lo == nil || l.v.Cmp(lo.v) > 0 || l.v.Cmp(lo.v) == 0 && l.strict && !lo.strict) {
 			lo = l
 		}
-		if h != nil && (hi == nil || h.Cmp(hi) < 0) {
+		if h != nil && (hi == nil || h.v.Cmp(hi.v) < 0 || h.v.Cmp(hi.v) == 0 && h.strict && !hi.strict) {
 			hi = h
 		}
 	}
-	one := big.NewRat(1, 1)
 	for _, a := range assume {
 		if a.Cond == nil {
 			continue
@@ -441,91 +447,107 @@ func (x *Extractor) evalByInterval(name string, d *RF, assume []Assumption, sub 
 		if ca == nil || !isCmpName(ca.Name) {
 			continue
 		}
+		if !truth && !integral && ca.Name != "cmp!=" {
+			continue
+		}
 		d2 := ca.Args[0].Sub(ca.Args[1])
 		if len(sub) > 0 {
 			d2 = d2.Subst(sub)
 		}
-		if !x.S.Integral(d2) {
+		if integral && !x.S.Integral(d2) {
 			continue
 		}
 		var k int
 		var off *big.Rat
-		if cc, ok := d2.Sub(d).IsConst(); ok && cc.IsInt() {
+		if cc, ok := d2.Sub(d).IsConst(); ok && (!integral || cc.IsInt()) {
 			k, off = 1, cc
-		} else if cc, ok := d2.Add(d).IsConst(); ok && cc.IsInt() {
+		} else if cc, ok := d2.Add(d).IsConst(); ok && (!integral || cc.IsInt()) {
 			k, off = -1, cc
 		} else {
 			continue
 		}
 		// bounds on d2 from the comparison d2 ? 0
-		var l2, h2 *big.Rat
+		var l2, h2 *bound
+		zero := new(big.Rat)
 		switch {
 		case ca.Name == "cmp<" && truth:
-			h2 = big.NewRat(-1, 1)
+			h2 = &bound{zero, true}
 		case ca.Name == "cmp<" && !truth:
-			l2 = new(big.Rat)
+			l2 = &bound{zero, false}
 		case ca.Name == "cmp<=" && truth:
-			h2 = new(big.Rat)
+			h2 = &bound{zero, false}
 		case ca.Name == "cmp<=" && !truth:
-			l2 = big.NewRat(1, 1)
+			l2 = &bound{zero, true}
 		case ca.Name == "cmp==" && truth, ca.Name == "cmp!=" && !truth:
-			l2, h2 = new(big.Rat), new(big.Rat)
+			l2, h2 = &bound{zero, false}, &bound{zero, false}
 		default:
 			continue
 		}
 		// d2 = k*d + off  ⇒  d = (d2 - off)/k
+		var l, h *bound
 		if k == 1 {
-			var l, h *big.Rat
 			if l2 != nil {
-				l = new(big.Rat).Sub(l2, off)
+				l = &bound{new(big.Rat).Sub(l2.v, off), l2.strict}
 			}
 			if h2 != nil {
-				h = new(big.Rat).Sub(h2, off)
+				h = &bound{new(big.Rat).Sub(h2.v, off), h2.strict}
 			}
-			tighten(l, h)
 		} else {
-			var l, h *big.Rat
 			if h2 != nil {
-				l = new(big.Rat).Sub(off, h2)
+				l = &bound{new(big.Rat).Sub(off, h2.v), h2.strict}
 			}
 			if l2 != nil {
-				h = new(big.Rat).Sub(off, l2)
+				h = &bound{new(big.Rat).Sub(off, l2.v), l2.strict}
 			}
-			tighten(l, h)
 		}
+		tighten(l, h)
 	}
 	if lo == nil && hi == nil {
 		return Unknown
 	}
-	zero := new(big.Rat)
-	neg1 := new(big.Rat).Neg(one)
+	if integral {
+		// strict integer bounds tighten by one
+		if lo != nil && lo.strict {
+			lo = &bound{new(big.Rat).Add(lo.v, big.NewRat(1, 1)), false}
+		}
+		if hi != nil && hi.strict {
+			hi = &bound{new(big.Rat).Sub(hi.v, big.NewRat(1, 1)), false}
+		}
+	}
+	neg := func() bool { return hi != nil && (hi.v.Sign() < 0 || hi.v.Sign() == 0 && hi.strict) } // d < 0
+	nonpos := func() bool { return hi != nil && hi.v.Sign() <= 0 }                                // d <= 0
+	pos := func() bool { return lo != nil && (lo.v.Sign() > 0 || lo.v.Sign() == 0 && lo.strict) } // d > 0
+	nonneg := func() bool { return lo != nil && lo.v.Sign() >= 0 }                                // d >= 0
+	isZero := func() bool {
+		return lo != nil && hi != nil && lo.v.Sign() == 0 && hi.v.Sign() == 0 && !lo.strict && !hi.strict
+	}
 	switch name {
 	case "cmp<": // d < 0
-		if hi != nil && hi.Cmp(neg1) <= 0 {
+		if neg() {
 			return True
 		}
-		if lo != nil && lo.Cmp(zero) >= 0 {
+		if nonneg() {
 			return False
 		}
 	case "cmp<=":
-		if hi != nil && hi.Cmp(zero) <= 0 {
+		if nonpos() {
 			return True
 		}
-		if lo != nil && lo.Cmp(one) >= 0 {
+		if pos() {
 			return False
 		}
 	case "cmp==":
-		if lo != nil && hi != nil && lo.Sign() == 0 && hi.Sign() == 0 {
+		if isZero() {
 			return True
 		}
-		if lo != nil && lo.Cmp(one) >= 0 || hi != nil && hi.Cmp(neg1) <= 0 {
+		if pos() || neg() {
 			return False
 		}
 	case "cmp!=":
-		if lo != nil && hi != nil && lo.Sign() == 0 && hi.Sign() == 0 {
+		if isZero() {
 			return False
 		}
-		if lo != nil && lo.Cmp(one) >= 0 || hi != nil && hi.Cmp(neg1) <= 0 {
+		if pos() || neg() {
 			return True
 		}
 	}
